@@ -743,6 +743,7 @@ package lang
 //@ ghost $failMark int
 //@ ghost $lit *Cell
 //@ func Evaluator.evalCaseMatch [C01,C02,C08,C11,C19,C20]
+//@   assert[C19] only-a-name-is-bound-by-a-pattern: arg1.Tag == Ident @ Lexer.GetString
 //@   modifies valueHeap, e.stackTop, e.returnVal, e.evalDepth
 //@   ensures[C20] depth-restored: e.evalDepth == old(e.evalDepth)
 //@   requires evOK(e) && value != nil && !$faulted
@@ -1159,6 +1160,7 @@ package lang
 //@   assert[C11] loop-header-outside-loop-context: p.inLoop == old(p.inLoop) && p.inFunction == old(p.inFunction) @ Parser.expression
 //@   ensures[C13] bare-return-ends-its-statement: err == nil && istype(result0, *StatementReturn) && as(result0, *StatementReturn).Expr == nil ==> p.didEndStatement
 //@   ensures[C13] block-ends-its-statement: err == nil && istype(result0, *StatementBlock) ==> p.didEndStatement
+//@   ensures[C07] a-for-in-variable-is-a-name: err == nil && istype(result0, *StatementForIn) ==> as(result0, *StatementForIn).Ident != nil && as(result0, *StatementForIn).Ident.token.Tag == Ident && (as(result0, *StatementForIn).IndexIdent != nil ==> as(result0, *StatementForIn).IndexIdent.token.Tag == Ident)
 //@   ensures[C07,C19] a-braced-body-is-a-block-statement: err == nil && old(p.current.Tag) == LCurly ==> istype(result0, *StatementBlock)
 //@   ensures ok: parserOK(p)
 //@   ensures previous: err == nil ==> p.previous != nil
